@@ -84,7 +84,32 @@ def gen_case(rng, per):
                     ";".join(f"{c},dec:{rat(Fraction(rng.randint(11, 999), 100))},int:1"
                              for c in CODES if c != base), _money.MODE])
         ops.append(["mc_stack", "enter", "cv"])
+    # targeted: for the first rate (a -> b) the price unit a/X is declared now,
+    # its counterpart b/X only half-way through: the application is rejected
+    # first (no target), asked again at once, and must succeed afterwards
+    first_cls = next(o for o in ops if o[0] == "decl_class" and o[2].startswith("c:Money^1;c:") and "PricePer" in o[1] and "PerLength" not in o[1][8:])
+    fx = PER[first_cls[1][len("PricePer"):]][0]
+    fa, fb = rates["r0"]
+    forced = []
+    if fa in CODES and fb in CODES:
+        for cur, bucket in ((fa, ops), (fb, late)):
+            d = ["derive_unit", first_cls[1], f"{cur},{fx}", "-"]
+            if bucket is ops and d in ops:
+                pass                        # declared already, stays where it is
+            else:
+                for lst in (ops, late):
+                    if d in lst:
+                        lst.remove(d)
+                bucket.append(d)
+            price_units[f"{cur}/{fx}"] = (first_cls[1], cur, fx)
+        # (second-level units built on the late one are declared after it)
+        dep = [o for o in ops if o[0] == "derive_unit" and o[2].startswith(f"{fb}/{fx},")]
+        for o in dep:
+            ops.remove(o)
+            late.append(o)
+        forced = [["money_rate", "mul", f"25/2@{fa}/{fx}", "r0", _money.MODE]] * 2
     nsetup = len(ops)
+    ops.extend([list(o) for o in forced])
     declared_now = {o[2].replace(",", "/") for o in ops if o[0] == "derive_unit"}
     for step in range(per):
         if late and step == per // 2:
@@ -95,6 +120,7 @@ def gen_case(rng, per):
             declared_now |= {o[2].replace(",", "/") for o in late}
             late = []
             ops.extend(asked[-12:])
+            ops.extend([list(o) for o in forced])
         mode = rng.choice(MODES)
         rn = rng.choice(list(rates))
         r = rng.random()
